@@ -6,6 +6,7 @@ package main
 import (
 	"encoding/json"
 	"fmt"
+	"strings"
 
 	"github.com/ipfs/boxo/verifshim/eng"
 )
@@ -54,25 +55,59 @@ func configs(r *eng.Run) []string {
 	return out
 }
 
-func spec(r *eng.Run) eng.SeqSpec {
-	initPool(r)
-	return eng.SeqSpec{
-		Configs: configs(r),
-		New:     func(c string) eng.Sys { return newSys(r, c) },
-		Depth:   eng.Pick(r, 5, 6),
+// deepConfigs: the configurations explored one level deeper in the thorough tier.
+func deepConfigs() []string {
+	var out []string
+	add := func(c cfg) { out = append(out, c.String()+"/deep") }
+	add(cfg{layout: "hamt", width: 8, thr: "def", est: "links"})
+	add(cfg{layout: "dyn", width: 8, maxLinks: 2, thr: "def", est: "off"})
+	add(cfg{layout: "dyn", width: 8, maxLinks: 2, thr: "tiny", est: "links"})
+	add(cfg{layout: "dyn", width: 8, maxLinks: 3, thr: "tiny", est: "block"})
+	add(cfg{layout: "dyn", width: 8, maxLinks: 0, thr: "tiny", est: "links"})
+	add(cfg{layout: "hamt", width: 16, thr: "def", est: "links"})
+	add(cfg{layout: "dyn", width: 8, maxLinks: 3, thr: "def", est: "off"})
+	add(cfg{layout: "dyn", width: 16, maxLinks: 2, thr: "tiny", est: "links"})
+	add(cfg{layout: "dyn", width: 1024, maxLinks: 2, thr: "tiny", est: "block"})
+	return out
+}
+
+func spec(r *eng.Run, deep bool) eng.SeqSpec {
+	if pool == nil {
+		initPool(r)
+	}
+	sp := eng.SeqSpec{
+		Configs:    configs(r),
+		New:        func(c string) eng.Sys { return newSys(r, c) },
+		Depth:      5,
 		NonTrivial: func(cfg string, p []string) bool { return len(p) >= 2 },
 	}
+	if deep {
+		sp.Configs = deepConfigs()
+		sp.Depth = 6
+	}
+	return sp
 }
 
 func main() {
 	prop = "C15"
 	eng.Main("C15", "model_checking", func(r *eng.Run) {
-		r.Rule("BFS over AddChild(add or replace, 2 targets) / RemoveChild (also of missing names) / reload-from-root-node / Find (when the HAMT is partly unloaded) sequences; each successor = replay on a fresh real directory + 1 op; state = map model + private directory fields + in-memory HAMT tree with loaded/unloaded children; after every transition Links, EnumLinksAsync, ForEachLink, Find(every pool name) on the directory and on a copy reloaded from the serialized root are compared with the map model; a case is non-trivial when the path has >= 2 operations")
+		r.Rule("BFS over AddChild(add or replace, 2 targets) / RemoveChild (also of missing names) / reload-from-root-node / Find (when the HAMT is partly unloaded) sequences; each successor = replay on a fresh real directory + 1 op; state = map model + private directory fields + in-memory HAMT tree with loaded/unloaded children + root CID; after every transition into a not yet checked state Links, EnumLinksAsync, ForEachLink, Find(every pool name) on the directory and on a copy reloaded from the serialized root are compared with the map model; a case is non-trivial when the path has >= 2 operations")
 		r.Assume("merkledag test DAGService (in-memory blockservice) is correct; murmur3 collisions are found by deterministic search over names c0,c1,... with the hamt package's own hash function")
 		r.Assume("globals uio.HAMTShardingSize / HAMTSizeEstimation / DefaultShardWidth stay at their defaults; everything is configured per directory (so the 'threshold disabled' setting, which exists only as a global, is not covered)")
-		sp := spec(r)
+		sp := spec(r, false)
 		r.Set("config_list", sp.Configs)
 		eng.ExploreSeq(r, sp)
-		_ = fmt.Sprint
-	}, func(r *eng.Run, raw json.RawMessage) { eng.ReplaySeq(r, spec(r), raw) })
+		if r.Thorough() && !r.Expired() {
+			r.Set("phase1", fmt.Sprintf("all %d configurations to depth %d", len(sp.Configs), sp.Depth))
+			dp := spec(r, true)
+			r.Set("phase2_config_list", dp.Configs)
+			eng.ExploreSeq(r, dp)
+		}
+	}, func(r *eng.Run, raw json.RawMessage) {
+		var rp struct {
+			Config string `json:"config"`
+		}
+		json.Unmarshal(raw, &rp)
+		eng.ReplaySeq(r, spec(r, strings.HasSuffix(rp.Config, "/deep")), raw)
+	})
 }
